@@ -25,7 +25,7 @@ example : ∀ g ∈ [(⟨[97, 32, 98], 32, -7⟩ : GlobalDef), ⟨[0xE4, 0xB8], 
   intro g hg
   simp only [List.mem_cons, List.mem_nil_iff, or_false] at hg
   rcases hg with rfl | rfl
-  · exact ⟨by simp, by intro h; have := h.1; revert this; decide, by decide⟩
-  · exact ⟨by simp, by intro h; have := h.1; revert this; decide, by decide⟩
+  · exact ⟨by simp, by decide⟩
+  · exact ⟨by simp, by decide⟩
 
 end Llir.Props.C01
